@@ -3,14 +3,16 @@
 Bytes / bytearrays are modelled as int lists (length + contents, in-place `+=`).  The external serializer is a callee contract:
   ASSUMED (dependency): len(convert_object_to_bytearray(m)) does not depend on the VALUES of offset/size fields that are non-zero, nor
   on anything else this function changes between its two calls; the call-site obligation generated here is that at BOTH calls every
-  data-bearing buffer has data None and NON-ZERO offset and size (a zero value would drop the field from the flatbuffer table).
-  Hence the explicit precondition: every constant is non-empty and the serialized model is non-empty.
-pad16(x) = smallest multiple of 16 that is >= x.  L(0) = pad16(SER);  L(i+1) = L(i) if buffer i has no data else pad16(L(i) + |data_i|)."""
+  EXTERNALISED buffer has data None and NON-ZERO offset and size (a zero value would drop the field from the flatbuffer table).
+  A buffer is externalised iff it has data of non-zero length; zero-length constants stay embedded and untouched (repository fix: before it they
+  were given size 0, the field was dropped in the second serialisation only, and every offset was computed for a flatbuffer 8 bytes longer).
+pad16(x) = smallest multiple of 16 that is >= x.  L(0) = pad16(SER);  L(i+1) = pad16(L(i) + |data_i|) if buffer i is externalised else L(i)."""
 import z3
 from vlib.pyvc import *
 from contracts.graph import items_i, items_r, ln
 FIELDS = {'buffers': 'list[ref]', 'data': 'ref', 'offset': 'int', 'size': 'int', '_constant_map': 'list[list[int]]'}
 def pad16(x): return x + (16 - x % 16) % 16
+DLEN = z3.Function('len_of_data', Ref, I)          # len(buffer.data) of the (abstract) data object of a buffer
 
 class SerializeLarge(Spec):
     fields = FIELDS; consts = {}; bytes_as_lists = True
@@ -20,6 +22,7 @@ class SerializeLarge(Spec):
         self.invariants = {0: self.inv_strip, 1: self.inv_pass1, 2: self.inv_pass2}
         self.while_invariants = {0: self.w_pad_dummy, 1: self.w_pad_model, 2: self.w_pad_in_pass1, 3: self.w_pad_in_pass2}
         self.ncalls = 0
+    def opaque_len(self, E, p, a): return DLEN(a.term)
     def bind(self, E, p):
         h = p.heap; S = self
         for nme in list(FIELDS) + ['$len', '$items:int', '$items:ref']: h.arr(nme)
@@ -28,30 +31,31 @@ class SerializeLarge(Spec):
         p.env.update(self=V('ref', S.self_), quantized_model=V('ref', S.model))
         S.bufs = h0.load(S.model, 'buffers'); S.nb = ln(h0, S.bufs); S.buf = lambda j: items_r(h0, S.bufs)[j]
         S.cm = h0.load(S.self_, '_constant_map'); S.CM = lambda j: items_r(h0, S.cm)[j]; S.CL = lambda j: ln(h0, S.CM(j)); S.CI = lambda j: items_i(h0, S.CM(j))
+        S.ext = lambda j: And(S.CM(j) != NULL, S.CL(j) > 0)                      # externalised: has data of non-zero length
         S.SER = z3.Int('serialized_length'); S.L = z3.Function('L', I, I)
         p.pc += [S.self_ != NULL, S.model != NULL, S.bufs != NULL, S.cm != NULL, S.nb >= 0, ln(h0, S.cm) == S.nb, S.SER > 0, S.L(0) == pad16(S.SER), S.bufs != S.cm, h0.alloc[S.bufs], h0.alloc[S.cm]]
         F = p.facts.append
         F(Schematic(1, lambda j: Implies(And(0 <= j, j < S.nb), And(S.buf(j) != NULL, h0.alloc[S.buf(j)], (S.CM(j) != NULL) == (h0.load(S.buf(j), 'data') != NULL),
-                                                                   Implies(S.CM(j) != NULL, And(S.CL(j) > 0, h0.alloc[S.CM(j)], S.CM(j) != S.bufs, S.CM(j) != S.cm)))), 'req:constant-map-aligned-with-buffers-and-non-empty'))
+                                                                   Implies(S.CM(j) != NULL, And(S.CL(j) >= 0, (DLEN(h0.load(S.buf(j), 'data')) > 0) == (S.CL(j) > 0), h0.alloc[S.CM(j)], S.CM(j) != S.bufs, S.CM(j) != S.cm)))), 'req:constant-map-aligned-with-buffers'))
         F(Schematic(2, lambda j, j2: Implies(And(0 <= j, j < j2, j2 < S.nb), S.buf(j) != S.buf(j2)), 'req:buffers-distinct'))
-        F(Schematic(1, lambda j: Implies(And(0 <= j, j < S.nb), S.L(j + 1) == If(S.CM(j) == NULL, S.L(j), pad16(S.L(j) + S.CL(j)))), 'spec:L-step'))
+        F(Schematic(1, lambda j: Implies(And(0 <= j, j < S.nb), S.L(j + 1) == If(S.ext(j), pad16(S.L(j) + S.CL(j)), S.L(j))), 'spec:L-step'))
         F(Schematic(1, lambda j: Implies(And(0 <= j, j <= S.nb), And(S.L(j) % 16 == 0, S.L(j) >= S.SER)), 'lemma:L-aligned'))     # proved separately by induction (props/C16.py)
-        F(Schematic(2, lambda j, j2: Implies(And(0 <= j, j < j2, j2 <= S.nb), S.L(j) + If(S.CM(j) != NULL, S.CL(j), 0) <= S.L(j2)), 'lemma:L-monotone'))   # idem
+        F(Schematic(2, lambda j, j2: Implies(And(0 <= j, j < j2, j2 <= S.nb), S.L(j) + If(S.ext(j), S.CL(j), 0) <= S.L(j2)), 'lemma:L-monotone'))   # idem
     def bounds(self, E): return [self.nb] + [self.CL(z3.IntVal(k)) for k in range(3)]
     def may_write(self, E, p, ref, field):
         if field in ('data', 'offset', 'size') and 'buffer' in p.env: return ref == p.env['buffer'].term
         return z3.BoolVal(False)
     # ---- buffer states
     def stripped(self, h, j, upto):
-        """after the first loop has passed position `upto`: data-bearing buffers before it have data None, offset 1, size 1"""
+        """after the first loop has passed position `upto`: externalised buffers before it have data None, offset 1, size 1"""
         S = self; b = S.buf(j); d0 = S.h0.load(b, 'data')
-        return If(And(j < upto, d0 != NULL), And(h.load(b, 'data') == NULL, h.load(b, 'offset') == 1, h.load(b, 'size') == 1),
+        return If(And(j < upto, S.ext(j)), And(h.load(b, 'data') == NULL, h.load(b, 'offset') == 1, h.load(b, 'size') == 1),
                   And(h.load(b, 'data') == d0, h.load(b, 'offset') == S.h0.load(b, 'offset'), h.load(b, 'size') == S.h0.load(b, 'size')))
     def placed(self, h, j, upto):
-        """during/after pass 1: data-bearing buffers before `upto` carry their final offset and size"""
+        """during/after pass 1: externalised buffers before `upto` carry their final offset and size; all other buffers are untouched"""
         S = self; b = S.buf(j); d0 = S.h0.load(b, 'data')
-        return If(d0 != NULL, And(h.load(b, 'data') == NULL, If(j < upto, And(h.load(b, 'offset') == S.L(j), h.load(b, 'size') == S.CL(j)), And(h.load(b, 'offset') == 1, h.load(b, 'size') == 1))),
-                  And(h.load(b, 'data') == NULL, h.load(b, 'offset') == S.h0.load(b, 'offset'), h.load(b, 'size') == S.h0.load(b, 'size')))
+        return If(S.ext(j), And(h.load(b, 'data') == NULL, If(j < upto, And(h.load(b, 'offset') == S.L(j), h.load(b, 'size') == S.CL(j)), And(h.load(b, 'offset') == 1, h.load(b, 'size') == 1))),
+                  And(h.load(b, 'data') == d0, h.load(b, 'offset') == S.h0.load(b, 'offset'), h.load(b, 'size') == S.h0.load(b, 'size')))
     def all_buffers(self, ctx, h, pred, upto): return ctx.forall(1, lambda j: Implies(And(0 <= j, j < self.nb), pred(h, j, upto)))
     def lists_kept(self, h):
         S = self
@@ -63,10 +67,10 @@ class SerializeLarge(Spec):
     # ---- callee: the flatbuffer serializer (external, assumed contract)
     def k_ser(self, E, p, args, kw, node):
         S = self; h = p.heap; S.ncalls += 1; sk = fresh('sk', I); b = S.buf(sk)
-        E.emit(p, f'callsite{S.ncalls}:serializer-assumption-applicable(data None, offset != 0, size != 0 for every data-bearing buffer)',
-               Implies(And(0 <= sk, sk < S.nb, S.h0.load(b, 'data') != NULL), And(h.load(b, 'data') == NULL, h.load(b, 'offset') != 0, h.load(b, 'size') != 0)), node.lineno)
-        E.emit(p, f'callsite{S.ncalls}:buffers-without-data-untouched', Implies(And(0 <= sk, sk < S.nb, S.h0.load(b, 'data') == NULL),
-               And(h.load(b, 'data') == NULL, h.load(b, 'offset') == S.h0.load(b, 'offset'), h.load(b, 'size') == S.h0.load(b, 'size'))), node.lineno)
+        E.emit(p, f'callsite{S.ncalls}:serializer-assumption-applicable(data None, offset != 0, size != 0 for every externalised buffer)',
+               Implies(And(0 <= sk, sk < S.nb, S.ext(sk)), And(h.load(b, 'data') == NULL, h.load(b, 'offset') != 0, h.load(b, 'size') != 0)), node.lineno)
+        E.emit(p, f'callsite{S.ncalls}:buffers-without-data-or-with-empty-data-untouched', Implies(And(0 <= sk, sk < S.nb, Not(S.ext(sk))),
+               And(h.load(b, 'data') == S.h0.load(b, 'data'), h.load(b, 'offset') == S.h0.load(b, 'offset'), h.load(b, 'size') == S.h0.load(b, 'size'))), node.lineno)
         E.emit(p, f'callsite{S.ncalls}:argument-is-the-model', args[0].term == S.model, node.lineno)
         r = h.new(p, 'ser'); h.store(r, '$items:int', fresh('ser', z3.ArraySort(I, I))); h.store(r, '$len', S.SER)
         return V('list[int]', r)
@@ -88,7 +92,7 @@ class SerializeLarge(Spec):
                 ('buffers', self.all_buffers(ctx, h, self.placed, i)), ('lists-kept', self.lists_kept(h)), ('constants-kept', self.constants_kept(ctx, h))]
     def content(self, ctx, h, x, upto):
         S = self
-        return ctx.forall(2, lambda j, k: Implies(And(0 <= j, j < upto, j < S.nb, S.CM(j) != NULL, 0 <= k, k < S.CL(j)), items_i(h, x)[S.L(j) + k] == S.CI(j)[k]))
+        return ctx.forall(2, lambda j, k: Implies(And(0 <= j, j < upto, j < S.nb, S.ext(j), 0 <= k, k < S.CL(j)), items_i(h, x)[S.L(j) + k] == S.CI(j)[k]))
     def inv_pass2(self, E, ctx, p, pre, i):
         S = self; h = p.heap; x = p.env['model_bytearray'].term
         return [('i-range', And(0 <= i, i <= S.nb)), ('same-object', x == pre.env['model_bytearray'].term), ('length-is-L(i)', ln(h, x) == S.L(i)),
@@ -96,13 +100,13 @@ class SerializeLarge(Spec):
     # ---- postcondition (C16)
     def ensures(self, E, ctx, p, ret):
         S = self; h = p.heap; out = items_i(h, ret.term); n = ln(h, ret.term)
-        off = lambda j: h.load(S.buf(j), 'offset'); size = lambda j: h.load(S.buf(j), 'size'); has = lambda j: And(0 <= j, j < S.nb, S.CM(j) != NULL)
+        off = lambda j: h.load(S.buf(j), 'offset'); size = lambda j: h.load(S.buf(j), 'size'); has = lambda j: And(0 <= j, j < S.nb, S.ext(j))
         return [('offset-16-byte-aligned-and-size-is-data-length', ctx.forall(1, lambda j: Implies(has(j), And(off(j) % 16 == 0, size(j) == S.CL(j), off(j) == S.L(j))))),
                 ('region-in-bounds', ctx.forall(1, lambda j: Implies(has(j), And(off(j) >= S.SER, off(j) + size(j) <= n)))),
                 ('regions-increasing-and-disjoint', ctx.forall(2, lambda j, j2: Implies(And(has(j), has(j2), j < j2), off(j) + size(j) <= off(j2)))),
                 ('region-holds-exactly-the-constant', ctx.forall(2, lambda j, k: Implies(And(has(j), 0 <= k, k < S.CL(j)), out[off(j) + k] == S.CI(j)[k]))),
                 ('data-moved-out-of-the-flatbuffer', ctx.forall(1, lambda j: Implies(has(j), h.load(S.buf(j), 'data') == NULL))),
-                ('buffers-without-data-untouched', ctx.forall(1, lambda j: Implies(And(0 <= j, j < S.nb, S.CM(j) == NULL), And(h.load(S.buf(j), 'data') == NULL, off(j) == S.h0.load(S.buf(j), 'offset'), size(j) == S.h0.load(S.buf(j), 'size'))))),
+                ('buffers-without-data-or-with-empty-data-untouched', ctx.forall(1, lambda j: Implies(And(0 <= j, j < S.nb, Not(S.ext(j))), And(h.load(S.buf(j), 'data') == S.h0.load(S.buf(j), 'data'), off(j) == S.h0.load(S.buf(j), 'offset'), size(j) == S.h0.load(S.buf(j), 'size'))))),
                 ('total-length-is-L(n)-multiple-of-16', And(n == S.L(S.nb), n % 16 == 0))]
 
 class ProcessConstantMap(Spec):
